@@ -1139,7 +1139,17 @@ static void MPSreadCols(MPSInput& mps, const LPRowSetBase<Rational>& rset, const
          if((idx = rnames.number(mps.field2())) < 0)
             mps.entryIgnored("Column", mps.field1(), "row", mps.field2());
          else if(val != 0)
+         {
+            // a second coefficient for the same row would put the index into the column vector twice
+            if(vec.pos(idx) >= 0)
+            {
+               SPX_MSG_ERROR(std::cerr << "ERROR in COLUMNS: duplicate entry for column " << colname << " in row "
+                             << rnames[idx] << std::endl;)
+               break;
+            }
+
             vec.add(idx, val);
+         }
       }
 
       if(mps.field5() != nullptr)
@@ -1163,7 +1173,17 @@ static void MPSreadCols(MPSInput& mps, const LPRowSetBase<Rational>& rset, const
             if((idx = rnames.number(mps.field4())) < 0)
                mps.entryIgnored("Column", mps.field1(), "row", mps.field4());
             else if(val != 0)
+            {
+               // a second coefficient for the same row would put the index into the column vector twice
+               if(vec.pos(idx) >= 0)
+               {
+                  SPX_MSG_ERROR(std::cerr << "ERROR in COLUMNS: duplicate entry for column " << colname << " in row "
+                                << rnames[idx] << std::endl;)
+                  break;
+               }
+
                vec.add(idx, val);
+            }
          }
       }
    }
